@@ -28,6 +28,9 @@ pub enum TOp {
     /// the one-shot free functions with a per-call needle (a prefix of the program's needle) on a
     /// haystack cut to below or above the 64-byte one-shot threshold: (haystack, needle length selector, cut selector, reverse?)
     OneShot(u8, u8, u8, u8),
+    /// the shared finders on a prefix of a haystack (0..=40 bytes: the short-haystack paths of the meta
+    /// searcher): (haystack, cut, 0 = find / 1 = rfind / 2 = find_iter)
+    FindCut(u8, u8, u8),
 }
 
 #[derive(Clone, Debug, PartialEq)]
@@ -38,6 +41,8 @@ pub struct Program {
     /// every operation is repeated this many times in a row by its thread (all repetitions must
     /// return the same value); long loops make calls of different threads overlap natively
     pub reps: u32,
+    /// the whole program is run this many times in the process, each time with freshly built shared finders
+    pub rounds: u32,
 }
 
 impl Program {
@@ -45,6 +50,7 @@ impl Program {
         let mut s = String::new();
         s.push_str(&format!("needle {}\n", hex(&self.needle)));
         s.push_str(&format!("reps {}\n", self.reps));
+        s.push_str(&format!("rounds {}\n", self.rounds));
         for h in &self.hays {
             s.push_str(&format!("hay {}\n", hex(h)));
         }
@@ -65,6 +71,7 @@ impl Program {
                     TOp::FindIter(h) => format!("finditer:{}", h),
                     TOp::HandOff(a, h, k) => format!("handoff:{}:{}:{}", a, h, k),
                     TOp::OneShot(h, n, c, r) => format!("oneshot:{}:{}:{}:{}", h, n, c, r),
+                    TOp::FindCut(h, c, m) => format!("findcut:{}:{}:{}", h, c, m),
                 });
             }
             s.push('\n');
@@ -73,13 +80,14 @@ impl Program {
     }
 
     pub fn decode(text: &str) -> Option<Program> {
-        let mut p = Program { needle: Vec::new(), hays: Vec::new(), threads: Vec::new(), reps: 1 };
+        let mut p = Program { needle: Vec::new(), hays: Vec::new(), threads: Vec::new(), reps: 1, rounds: 1 };
         for line in text.lines() {
             let mut it = line.split_whitespace();
             match it.next() {
                 Some("needle") => p.needle = unhex(it.next()?),
                 Some("hay") => p.hays.push(unhex(it.next()?)),
                 Some("reps") => p.reps = it.next()?.parse().ok()?,
+                Some("rounds") => p.rounds = it.next()?.parse().ok()?,
                 Some("thread") => {
                     let mut ops = Vec::new();
                     for tok in it {
@@ -98,6 +106,7 @@ impl Program {
                             "finditer" => TOp::FindIter(a(1)?),
                             "handoff" => TOp::HandOff(a(1)?, a(2)?, a(3)?),
                             "oneshot" => TOp::OneShot(a(1)?, a(2)?, a(3)?, a(4)?),
+                            "findcut" => TOp::FindCut(a(1)?, a(2)?, a(3)?),
                             _ => return None,
                         });
                     }
@@ -138,6 +147,15 @@ fn sequential(p: &Program, finder: &Finder<'_>, rfinder: &FinderRev<'_>, op: &TO
         TOp::Rfind(i) => vec![enc(rfinder.rfind(h(*i)))],
         TOp::FindIter(i) => finder.find_iter(h(*i)).map(|x| x as i64).collect(),
         TOp::HandOff(a, i, _) => memchr::memchr_iter(*a, h(*i)).map(|x| x as i64).collect(),
+        TOp::FindCut(i, cut, mode) => {
+            let full = h(*i);
+            let hay = &full[..full.len().min(*cut as usize % 41)];
+            match mode % 3 {
+                0 => vec![enc(finder.find(hay))],
+                1 => vec![enc(rfinder.rfind(hay))],
+                _ => finder.find_iter(hay).take(hay.len() + 2).map(|x| x as i64).collect(),
+            }
+        }
         TOp::OneShot(i, nsel, csel, rev) => {
             let full = h(*i);
             let needle: &[u8] = if p.needle.is_empty() { &p.needle } else { &p.needle[..1 + (*nsel as usize) % p.needle.len().min(24)] };
@@ -168,6 +186,15 @@ fn sequential(p: &Program, finder: &Finder<'_>, rfinder: &FinderRev<'_>, op: &TO
 /// between what a thread observed and what the same call returns on its own
 /// afterwards.
 pub fn run(p: &Program) -> Result<u64, String> {
+    let rounds = if cfg!(miri) { 1 } else { p.rounds.max(1) };
+    let mut calls = 0;
+    for r in 0..rounds {
+        calls += run_round(p).map_err(|e| format!("round {}: {}", r, e))?;
+    }
+    Ok(calls)
+}
+
+fn run_round(p: &Program) -> Result<u64, String> {
     let nthreads = p.threads.len();
     if nthreads == 0 {
         return Ok(0);
@@ -176,6 +203,8 @@ pub fn run(p: &Program) -> Result<u64, String> {
     let finder = Finder::new(&p.needle);
     let rfinder = FinderRev::new(&p.needle);
     let barrier = Arc::new(Barrier::new(nthreads));
+    // after the (futex) barrier the threads spin on a counter, so that they start within nanoseconds of each other
+    let arrived = Arc::new(std::sync::atomic::AtomicUsize::new(0));
     let prog = p;
     // a ring of channels for handing iterators to the next thread
     let mut senders = Vec::new();
@@ -191,6 +220,7 @@ pub fn run(p: &Program) -> Result<u64, String> {
         let mut handles = Vec::new();
         for t in 0..nthreads {
             let barrier = barrier.clone();
+            let arrived = arrived.clone();
             let finder = &finder;
             let rfinder = &rfinder;
             let ops = &prog.threads[t];
@@ -200,6 +230,14 @@ pub fn run(p: &Program) -> Result<u64, String> {
                 let h = |i: u8| -> &[u8] { &prog.hays[i as usize % prog.hays.len()] };
                 let mut obs: Obs = Vec::new();
                 barrier.wait();
+                if !cfg!(miri) && nthreads <= 8 {
+                    arrived.fetch_add(1, std::sync::atomic::Ordering::SeqCst);
+                    let mut spins = 0u32;
+                    while arrived.load(std::sync::atomic::Ordering::SeqCst) < nthreads && spins < 100_000 {
+                        std::hint::spin_loop();
+                        spins += 1;
+                    }
+                }
                 for (k, op) in ops.iter().enumerate() {
                     let got: Vec<i64> = match op {
                         TOp::HandOff(a, i, take) => {
